@@ -66,6 +66,11 @@ Theorem C02_rewritten_file_rereads : forall x y hm ver hl v rest0 r0,
   pyc_process y = Ok (y, false).
 Proof. exact pyc_reread. Qed.
 
+(* the executable domain predicate the correspondence check runs on every sampled file: when it reports an
+   input inside the domain of C02_rewritten_file_rereads, the re-read it computes succeeds *)
+Theorem C02_domain_predicate_sound : forall x rr, pyc_domain x = Some (true, rr) -> rr = true.
+Proof. exact pyc_domain_sound. Qed.
+
 (* integers of arbitrary size: digit count, sign and base-2^15 digits survive *)
 Theorem C02_long_roundtrip : forall ver layout z rest f,
   long_ndigits z < 2147483648 -> (N.to_nat (long_ndigits z) <= f)%nat ->
@@ -126,6 +131,7 @@ Print Assumptions C02_refs_point_back_partial.
 Print Assumptions C02_refs_resolve_partial.
 Print Assumptions C02_roundtrip.
 Print Assumptions C02_rewritten_file_rereads.
+Print Assumptions C02_domain_predicate_sound.
 Print Assumptions C02_long_roundtrip.
 Print Assumptions C02_sample_in_domain.
 Print Assumptions C02_writer_equality.
